@@ -2,7 +2,7 @@
 
 from __future__ import annotations
 
-from .. import gen, probe, spec
+from .. import gen, probe, smallworld, spec
 from ..probe import violation
 from .common import call, use_as_input_of_derivations
 
@@ -47,7 +47,38 @@ def make_prefix_free(recs):
     return out
 
 
+def small_world_relations(c, recs, d, q):
+    """The round-trip relations of C03 on one string of the bounded world (the converter's own answers only)."""
+    w = {"records": [spec.rec_dict(r) for r in recs], "delimiter": d, "built": "curie-small-world"}
+    cu = call(c.compress, q)
+    ex = call(c.expand, q)
+    probe.evaluated("round-trip")
+    if ex[0] == "ret" and ex[1] is not None:
+        back = call(c.compress, ex[1])
+        if back[0] != "ret" or back[1] is None:
+            violation(["C03"], "round-trip", "expansion-not-compressible", curie=q, expanded=ex[1], **w)
+    if cu[0] != "ret" or cu[1] is None:
+        return
+    curie = cu[1]
+    ea, e, su = call(c.expand_all, curie), call(c.expand, curie), call(c.standardize_uri, q)
+    if ea[0] != "ret" or ea[1] is None or q not in ea[1]:
+        violation(["C03"], "round-trip", "uri-not-among-expand_all-of-its-curie", uri=q, curie=curie, expand_all=ea, **w)
+    if probe.okey(e) != probe.okey(su) or e[0] != "ret" or e[1] is None:
+        violation(["C03"], "round-trip", "expand-of-compress-differs-from-standardize_uri", uri=q, curie=curie, expand=e, standardize_uri=su, **w)
+    if spec.SpecConverter(recs, d).prefix_free():
+        probe.evaluated("bijection-on-prefix-free")
+        sc = call(c.standardize_curie, curie)
+        back = call(c.compress, e[1]) if e[0] == "ret" and e[1] is not None else None
+        if back is not None and probe.okey(back) != probe.okey(sc):
+            violation(["C03"], "bijection-on-prefix-free", "compress-of-expand-differs-from-standardize_curie", uri=q, curie=curie, back=back, standardize_curie=sc, **w)
+
+
 def run_case(ctx, g, rng):
+    if smallworld.active(ctx, g):
+        for c_, recs_, d_ in smallworld.chunk(ctx, g):
+            for q in smallworld.queries(ctx.tier, d_):
+                small_world_relations(c_, recs_, d_, q)
+        probe.note_key(f"curie-small-world:chunk{g % 40}", True)
     api, S = ctx.api, probe.S
     d = rng.choice(gen.DELIMS)
     recs = gen.records(rng, d, 1, 5)
@@ -184,3 +215,7 @@ def run_case(ctx, g, rng):
     if g % 151 == 0 and allu:
         u = allu[0] + "1"
         probe.sample({**w, "built": how, "uri": u, "compress": call(c.compress, u), "standardize_uri": call(c.standardize_uri, u)})
+
+
+def EXHAUSTIVE(tier, counters):
+    return smallworld.exhaustive(tier, counters)
